@@ -86,7 +86,8 @@ func checkC12(c *core.Ctx) error {
 	}
 	c.Explanation = "Interprocedural may-write summaries over the typed AST (engine E5: local aliases, derived references such as At/Slice/T and element pointers, struct copies, static callees; interface calls resolved by the library's const/mutable interface stratification) decide: " +
 		"(R1) every Clone*/As* result is built from fresh allocations and clones, field by field; (R2) no parameter typed ConstScalar/ConstVector/ConstMatrix is ever written, anywhere in the library, and the reviewed input parameters of the algorithm entry points are not written; " +
-		"(R3) optimizers reach their iteration state from the starting point only through a clone/conversion; (R5) the methods of the const interface strata do not write their receiver."
+		"(R3) optimizers reach their iteration state from the starting point only through a clone/conversion; (R5) the methods of the const interface strata do not write their receiver." +
+		" (R6) Clones of the root package built field by field carry every field of the source over."
 	c.Rule("C12.R1", "Clone*/As* results share no mutable reference with their source: every reference-kind field of the result is a fresh allocation, a constructor result or a Clone of the source's field", 380)
 	c.Rule("C12.R2", "parameters typed ConstScalar/ConstVector/ConstMatrix are never written (directly, through a downcast, an alias, a derived reference or a callee); the reviewed input parameters of algorithm entry points are not written", 1500)
 	c.Rule("C12.R3", "the starting point of every optimizer reaches the iteration state only through Clone*/As* (a fresh copy)", 10)
